@@ -25,7 +25,8 @@ from . import c03, c02
 def cases(draw):
     role = draw(st.sampled_from(["client", "server"]))
     state = draw(st.sampled_from(["open", "open", "open", "closing", "wait-cea" if role == "client" else "server-closed"]))
-    kind = draw(st.sampled_from(["mutation", "mutation", "misaddressed", "unknown-enumerator", "wrong-width", "short-host-ip"]))
+    kind = draw(st.sampled_from(["mutation", "mutation", "misaddressed", "unknown-enumerator", "wrong-width", "short-host-ip",
+                                 "good+length0", "good+short-length", "good+garbage-header"]))
     mut = draw(c03.cases) if kind == "mutation" else None
     return {"kind": "live", "role": role, "state": state, "input": kind, "mut": mut, "cuts": draw(st.lists(st.integers(1, 600), max_size=3)),
             "hbh": draw(st.integers(1, 2**32 - 1))}
@@ -59,6 +60,12 @@ def build_input(case):
     if k == "wrong-width":
         avps = [rc.enc_avp(263, 0x40, None, b"peer;9;9"), rc.enc_avp(268, 0x40, None, b"\x00\x00\x07\xd1\x00")]     # 5-byte Result-Code
         return rc.enc_msg(1, 0x40, 316, 16777251, case["hbh"], 8, avps), True
+    if k in ("good+length0", "good+short-length", "good+garbage-header"):
+        # one or two well-formed messages immediately followed, in the same read, by a header that cannot be framed
+        good = app_request(case["hbh"], 5, dest_realm=LOCAL["realm"]) * (1 + case["hbh"] % 2)
+        ln = {"good+length0": 0, "good+short-length": 1 + case["hbh"] % 19, "good+garbage-header": 0xFFFFFF}[k]
+        bad = bytes([1]) + ln.to_bytes(3, "big") + bytes([0x80, 0, 1, 0x3c]) + bytes(12)
+        return good + bad, False
     if k == "short-host-ip":
         # CER-like message whose Host-IP-Address has family code only
         avps = [rc.enc_avp(264, 0x40, None, b"peer.remote.example"), rc.enc_avp(296, 0x40, None, b"remote.example"),
